@@ -40,6 +40,11 @@ WrongCodecOrigin(d, o, i) ==
   IF bad = {} THEN "none"
   ELSE IF \A k \in bad : CodecElsewhere(o, i, a.rtpmap[k]) THEN "other-section" ELSE "not-in-offer"
 
+OfferListsCodecTwice(o) ==
+  \E i \in 1..Len(o.sections) : \E a, b \in 1..Len(o.sections[i].rtpmap) :
+      LET x == o.sections[i].rtpmap[a]  y == o.sections[i].rtpmap[b] IN
+      a # b /\ x.name = y.name /\ x.name # "rtx" /\ x.clock = y.clock /\ x.ch = y.ch
+
 Preds(e) ==
   LET desc  == e.ev = "desc" /\ e.ok
       d     == e.d
@@ -73,7 +78,10 @@ Preds(e) ==
    P("C09", "PositionStable", desc /\ d.parses /\ Unified(e), PositionStable(cur, prev[e.who])),
    P("C09", "NoMidReuse", desc /\ d.parses /\ Unified(e), NoMidReuse(cur, prev[e.who], used[e.who])),
    \* ---- C10
-   P("C10", "PayloadsUnique", desc /\ d.parses, AllMedia(d, PayloadsUnique)),
+   \* the signature says whether the description answers an offer that lists one codec (name, clock rate,
+   \* channels) under two payload types: pion then answers with one payload type listed twice (recorded)
+   PD("C10", "PayloadsUnique", desc /\ d.parses, AllMedia(d, PayloadsUnique),
+      IF ans /\ OfferListsCodecTwice(o) THEN "offer-lists-a-codec-twice" ELSE "plain"),
    P("C10", "AttrsReferToListed", desc /\ d.parses, AllMedia(d, AttrsReferToListed)),
    P("C10", "AptListed", desc /\ d.parses, AllMedia(d, AptListed)),
    P("C10", "ExtmapOK", desc /\ d.parses, AllMedia(d, ExtmapOK)),
